@@ -4,7 +4,7 @@ from .. import cfggen, cfgrun, cfgstream, core, schemafam as F
 RULE = ("schema family with handler attributes on random subsets of items (schema, keys, multikeys, sections, "
         "multisections, all depths); accepted texts; handler maps complete / incomplete / with None / with case-variant "
         "duplicates; recording callables. Expected entries computed from the value tree and the text by the statement's "
-        "post-order rule. non-trivial = at least one handler entry; distinct by (schema, text)")
+        "post-order rule; loads with '%import' lines AND overrides (ovimport.py): handler log of the override load = that of the hand-edited text = the model's. non-trivial = at least one handler entry; distinct by (schema, text)")
 
 import zcvdt  # noqa: E402
 
@@ -275,6 +275,10 @@ def run(ctx):
                 break
     finally:
         pk.close()
+    # '%import' lines, overrides and handlers TOGETHER (C16_handlers_postorder_general): the composite handler of the load with
+    # overrides = that of the hand-edited text, and = the model's
+    from .. import ovimport
+    ovimport.run_stream(ctx, "C16")
     ok = [c for c in cases if c.out[0] == "ok"]
     if ok:
         ctx.sample({"lines": ok[0].lines, "handler_len": len(ok[0].handler)})
